@@ -16,7 +16,7 @@ PROPS = {
     "C01": dict(
         title="A DAG call returns exactly what the plain Python function would return",
         core=["REF-DEREF", "REF-KEY", "REF-FIELDS", "REF-ASDICT"],
-        aux=["REF-MAT", "REF-SHAPE", "REF-OPS", "REF-NI", "SCH-ARMS", "OWN-ARGS", "REF-GETITEM", "REF-RESERVED", "REF-TRACE", "VAL-ARGCOUNT", "OWN-STRICT", "REF-SEED", "REF-PREFIX"],
+        aux=["REF-MAT", "REF-SHAPE", "REF-OPS", "REF-NI", "SCH-ARMS", "OWN-ARGS", "REF-GETITEM", "REF-RESERVED", "REF-TRACE", "VAL-ARGCOUNT", "OWN-STRICT", "REF-SEED", "REF-PREFIX", "REF-ACTIVE-BUILD", "REF-RESULTTRY", "REF-FUNCOPY"],
         explanation="Necessary structural conditions of value equivalence, re-derived from source on every run: every reference "
                     "(node id + key path) is dereferenced only through the accessor; key paths survive every re-identification; "
                     "every reference field is handled at every reference-handling site and restored after dataclasses.asdict; "
@@ -28,7 +28,7 @@ PROPS = {
     "C02": dict(
         title="No node starts before all of its dependencies have finished",
         core=["SCH-ORIGIN", "SCH-RSET", "SCH-DONE", "SCH-PRUNE", "REF-FIELDS"],
-        aux=["SCH-ROOTS", "REF-DEREF", "REF-MAT", "ERR-CHECK", "SCH-TASKDONE", "REF-SEED", "SCH-BIDICT"],
+        aux=["SCH-ROOTS", "REF-DEREF", "REF-MAT", "ERR-CHECK", "SCH-TASKDONE", "REF-SEED", "SCH-BIDICT", "REF-RESULTTRY"],
         explanation="Inductive argument over all loop paths of the scheduler: INV 'every id in the runnable set has in-degree 0 in "
                     "the remaining graph, which holds exactly the unfinished selected nodes' is established by the prune and "
                     "preserved by every event class (selection, removal, dispatch, wait, release of successors); a dispatch only "
@@ -39,7 +39,7 @@ PROPS = {
     "C03": dict(
         title="Each selected active node runs exactly once per execution, nothing else runs",
         core=["SCH-ONCE", "SCH-ORIGIN", "SCH-PRUNE", "SCH-DONE"],
-        aux=["OWN-STRICT", "OWN-FORCE", "REF-UNIQ", "GT-CYCLE", "GT-GATE", "GT-CARRY", "REF-KEY", "SCH-DEACT", "GT-POP", "GT-ALIAS"],
+        aux=["OWN-STRICT", "OWN-FORCE", "REF-UNIQ", "GT-CYCLE", "GT-GATE", "GT-CARRY", "REF-KEY", "SCH-DEACT", "GT-POP", "GT-ALIAS", "OWN-LIVERESULTS", "REF-WRAPDICT", "REF-FUNCOPY"],
         explanation="Exactly-once event pattern on every loop path: the selected id leaves the runnable set exactly once on every "
                     "path that dispatches or deactivates it and never otherwise; at most one dispatch per iteration; pre-computed "
                     "ids pruned before the runnable set is formed; results map write-once; per-call-site ids.",
@@ -49,7 +49,7 @@ PROPS = {
     "C04": dict(
         title="At most max_concurrency pooled nodes in flight; resources decide the thread",
         core=["SCH-BOUND", "SCH-COUNT"],
-        aux=["SCH-ARMS", "VAL-MAXC", "SIB-FWD-SCHED", "SCH-POOLSIZE", "VAL-CONF", "SCH-TASKDONE"],
+        aux=["SCH-ARMS", "VAL-MAXC", "SIB-FWD-SCHED", "SCH-POOLSIZE", "VAL-CONF", "SCH-TASKDONE", "SCH-ONLYDISPATCH", "VAL-POSTINIT"],
         explanation="On every path reaching a pooled dispatch either a live guard literal implies in-flight < max or every in-flight "
                     "set was waited on since the last submission; the count covers every set that receives futures; sets shrink "
                     "only through waits; resource -> dispatch-kind mapping exhaustive and correct; max_concurrency >= 1 validated "
@@ -60,7 +60,7 @@ PROPS = {
     "C05": dict(
         title="A sequential node never overlaps any other node of its execution",
         core=["SCH-SEQ-PRE", "SCH-SEQ-POST"],
-        aux=["SCH-COUNT", "SCH-ARMS", "VAL-CONF", "VAL-EXPAND"],
+        aux=["SCH-COUNT", "SCH-ARMS", "VAL-CONF", "VAL-EXPAND", "SCH-ONLYDISPATCH", "VAL-POSTINIT"],
         explanation="Pre-guard fact 'not sequential or nothing in flight' is live at every dispatch of every loop path; after a "
                     "pooled dispatch of a possibly sequential node its in-flight set is drained before the loop head.",
         not_decided="nothing structural; wait primitives trusted",
@@ -91,7 +91,7 @@ PROPS = {
     "C08": dict(
         title="The scheduler never idles while a ready node and a free slot both exist",
         core=["SCH-WAITSITES", "SCH-WAITMODE"],
-        aux=["SCH-GUARD", "SCH-MIXWAIT", "SCH-POOLSIZE", "SIB-FWD-SCHED", "SCH-TASKDONE", "SCH-ARMS", "VAL-SYNTHSEQ", "SCH-EAGER", "SCH-STALEPICK"],
+        aux=["SCH-GUARD", "SCH-MIXWAIT", "SCH-POOLSIZE", "SIB-FWD-SCHED", "SCH-TASKDONE", "SCH-ARMS", "VAL-SYNTHSEQ", "SCH-EAGER", "SCH-STALEPICK", "VAL-CONF", "VAL-POSTINIT"],
         explanation="Every blocking wait site of the loop is under exactly one of three licences (full or nothing runnable; "
                     "sequential candidate with something in flight; sequential node just dispatched); the first two wait "
                     "FIRST_COMPLETED; the pool has max_concurrency workers. SCH-MIXWAIT reports the exception the property names.",
@@ -121,7 +121,7 @@ PROPS = {
     "C11": dict(
         title="A setup node runs at most once per DAG instance and its value is reused",
         core=["OWN-WRITEBACK", "OWN-SETUP", "SCH-PRUNE"],
-        aux=["OWN-DEEPCOPY", "VAL-SETUPDEP", "VAL-SETUPARG", "SIB-DAG", "SIB-FWD", "GT-PRESENCE", "OWN-SCHEDCOPY", "VAL-GENREUSE", "GT-ALIASNORM", "GT-DEFAULTSEL"],
+        aux=["OWN-DEEPCOPY", "VAL-SETUPDEP", "VAL-SETUPARG", "SIB-DAG", "SIB-FWD", "GT-PRESENCE", "OWN-SCHEDCOPY", "VAL-GENREUSE", "GT-ALIASNORM", "GT-DEFAULTSEL", "OWN-LIVERESULTS", "REF-WRAPDICT"],
         explanation="Who-may-write: the only element write into a DAG's results on a run path is the guarded setup write-back and "
                     "the only re-binding is setup() on a setup-only graph; pruning by membership precedes scheduling; build-time "
                     "refusals present; selection forwarded.",
@@ -131,7 +131,7 @@ PROPS = {
     "C12": dict(
         title="target / exclude / root selection executes exactly the documented closure",
         core=["GT-SELECT"],
-        aux=["GT-ALIAS", "REF-MAT", "SIB-FWD", "GT-PRESENCE", "GT-POP", "REF-DEREF", "GT-ALIASNORM", "GT-DEFAULTSEL"],
+        aux=["GT-ALIAS", "REF-MAT", "SIB-FWD", "GT-PRESENCE", "GT-POP", "REF-DEREF", "GT-ALIASNORM", "GT-DEFAULTSEL", "REF-STUBEXEC", "GT-REFALIAS", "GT-ROOTCONST"],
         explanation="Three guarded steps in dominance order roots -> exclude -> targets, each with the right closure primitive "
                     "(descendants incl. self / ancestors incl. self); alias order node, tag, id; the ValueErrors are reachable and "
                     "unconditional under their tests; unexecuted ids read as None.",
@@ -141,7 +141,7 @@ PROPS = {
     "C13": dict(
         title="Debug nodes run only when enabled and never influence production results",
         core=["GT-GATE", "GT-CARRY"],
-        aux=["VAL-DEBUGDEP", "SIB-DAG", "VAL-DEBUGSETUP", "GT-DEBUGINC"],
+        aux=["VAL-DEBUGDEP", "SIB-DAG", "VAL-DEBUGSETUP", "GT-DEBUGINC", "REF-WRAPDICT"],
         explanation="Every graph reaching the scheduler passed the debug gate or the setup-only filter; the gate subtracts using a "
                     "table that actually carries the markers (typestate); flag-on inclusion requires all predecessors selected; "
                     "build-time refusal of non-debug depending on debug.",
@@ -151,7 +151,7 @@ PROPS = {
     "C14": dict(
         title="A failing node fails the call, names itself, and starts nothing downstream",
         core=["ERR-WRAP", "ERR-CHECK", "ERR-NOSWALLOW"],
-        aux=["SCH-DONE", "SCH-EXIT", "ERR-CTX", "SCH-BIDICT", "ERR-FAILSTOP", "REF-NONEKEY"],
+        aux=["SCH-DONE", "SCH-EXIT", "ERR-CTX", "SCH-BIDICT", "ERR-FAILSTOP", "REF-NONEKEY", "ERR-LOGFMT", "ERR-FRAME", "REF-RESULTTRY"],
         explanation="The node call is wrapped with id + call location 'from e'; every newly done future is checked before the "
                     "wait helper returns and before the node is removed from the graph; no handler between the check and the API "
                     "boundary; context managers around the node call do not suppress.",
@@ -161,7 +161,7 @@ PROPS = {
     "C15": dict(
         title="Calls do not leak state: a DAG (and an executor) behaves as if freshly built",
         core=["OWN-RUN", "OWN-ARGS", "OWN-CONSUME"],
-        aux=["OWN-WRITEBACK", "VAL-EXECUTED", "OWN-COMPOSE", "OWN-SCHEDCOPY", "VAL-SETUPARG", "VAL-ARGCOUNT", "VAL-GENREUSE", "OWN-SETUP", "OWN-WBCOMPLETE"],
+        aux=["OWN-WRITEBACK", "VAL-EXECUTED", "OWN-COMPOSE", "OWN-SCHEDCOPY", "VAL-SETUPARG", "VAL-ARGCOUNT", "VAL-GENREUSE", "OWN-SETUP", "OWN-WBCOMPLETE", "OWN-LIVERESULTS", "VAL-CONFATOMIC", "SCH-POOLEXIT"],
         explanation="Ownership: run paths mutate only objects they created, executor fields, or the licensed setup write-back; "
                     "arguments are written into a copy; a consumed graph is fresh per call.",
         not_decided="equality of outcomes over histories (implied by non-interference, which is what is checked)",
@@ -210,7 +210,7 @@ PROPS = {
     "C20": dict(
         title="Calling a DAG inside a DAG is equivalent to inlining it",
         core=["REF-PREFIX", "REF-ASDICT", "REF-KEY", "REF-SEED"],
-        aux=["LCK-PAIR", "REF-SHAPE", "REF-UNIQ", "REF-FLAGPRED", "REF-GETITEM", "REF-TRACE", "SIB-CTOR", "REF-STABLEID", "REF-SAMENODE"],
+        aux=["LCK-PAIR", "REF-SHAPE", "REF-UNIQ", "REF-FLAGPRED", "REF-GETITEM", "REF-TRACE", "SIB-CTOR", "REF-STABLEID", "REF-SAMENODE", "REF-STUBEXEC"],
         explanation="Every inner id reaching an outer table passes the prefixer exactly once; stub ids are not seeded with "
                     "defaults; asdict restoration of every reference field; return-shape agreement; prefix push/pop paired; "
                     "registration ids call-site unique (reports the known collision).",
